@@ -39,6 +39,8 @@ type c06Case struct {
 	Shape   string    `json:"shape,omitempty"`
 	// Template: drive `helm template` through pkg/cmd instead of the action struct (thorough tier)
 	Template *c06Template `json:"template,omitempty"`
+	// Cmd: drive helm install / upgrade / rollback / uninstall through pkg/cmd (the command layer)
+	Cmd *c06Cmd `json:"cmd,omitempty"`
 }
 
 type c06State struct {
@@ -106,7 +108,7 @@ func c06TalksToServer(c c06Case) bool {
 }
 
 func c06InModel(c c06Case) bool {
-	if c.Wide != nil || c.Template != nil {
+	if c.Wide != nil || c.Template != nil || c.Cmd != nil {
 		return false
 	}
 	// the model's client-only install is the `helm template` configuration: always a dry run
@@ -128,6 +130,8 @@ func (*c06) Execute(ci any) any {
 	}
 	o.Before = c06State{Ledger: c06Ledger(r.Inner), Objs: r.Srv.Snapshot()}
 	switch {
+	case c.Cmd != nil:
+		o.Test, o.Rich = c06RunCmd(r, c.Op, c.Wide, c.Cmd)
 	case c.Template != nil:
 		o.Test, o.Out, o.Rich = c06RunTemplate(r, c.Op, c.Wide, c.Template)
 	case c.Wide != nil:
@@ -161,10 +165,17 @@ func (*c06) Oracle(ci, oi any) []hx.Violation {
 	if c.Template != nil {
 		what = fmt.Sprintf("helm template %v", c.Template.Args)
 	}
+	if c.Cmd != nil {
+		what = fmt.Sprintf("helm %s %q %v", c.Cmd.Sub, c.Cmd.Dry, c.Cmd.Extra)
+	}
 	if t.Panic != "" {
 		add("C06:panic", what+" panicked: "+t.Panic)
 	}
 	dry := c06IsDrySpelling(c.Op.Kind, f) || c.Template != nil
+	if c.Cmd != nil {
+		// the command layer: a dry-run REQUEST, whether the command accepts or refuses the value
+		dry = c06CmdDryRequest(c.Cmd)
+	}
 	clientOnly := (c.Op.Kind == "install" && f.ClientOnly) || (c.Template != nil && !c.Template.Validate)
 	if dry || clientOnly {
 		if t.MutReqs != 0 {
@@ -259,6 +270,13 @@ func (*c06) Class(ci, _ any) string {
 	if c.Template != nil {
 		return "helm-template/" + c.Shape + "/" + dom
 	}
+	if c.Cmd != nil {
+		req := "no-request"
+		if c06CmdDryRequest(c.Cmd) {
+			req = "dry-request"
+		}
+		return fmt.Sprintf("helm-%s/%s/%s/%s", c.Cmd.Sub, req, c.Shape, dom)
+	}
 	k := c.Op.Kind
 	if c.Op.Flags.ClientOnly {
 		k += "+client-only"
@@ -272,6 +290,9 @@ func (*c06) Class(ci, _ any) string {
 func (*c06) NonTrivial(ci, oi any) bool {
 	c, o := ci.(c06Case), oi.(c06Obs)
 	dry := c06IsDrySpelling(c.Op.Kind, c.Op.Flags) || c.Op.Flags.ClientOnly || c.Template != nil
+	if c.Cmd != nil {
+		return c06CmdDryRequest(c.Cmd) // accepted (a dry run) or refused: both are what the property is about
+	}
 	return dry && o.Test.Outcome == "ok"
 }
 
